@@ -412,7 +412,8 @@ type st = { cap : nat; q : nat list; scount : z; rcount : z; pdrop :
             rf : (rfut * bool) option; next : nat; accepted : nat list;
             received : nat list; returned : nat list; dropped : nat list;
             drained : nat list; s_pend : nat option; s_woken : bool;
-            r_pend : (owner * nat) option; r_woken : bool; rdisc : bool;
+            r_pend : (owner * nat) option; r_woken : bool;
+            st_pend : nat option; st_woken : bool; rdisc : bool;
             s_ever : bool; r_ever : bool; ev : event list }
 
 (** val set_q : nat list -> st -> st **)
@@ -423,8 +424,9 @@ let set_q v s =
     rreg = s.rreg; sf = s.sf; rf = s.rf; next = s.next; accepted =
     s.accepted; received = s.received; returned = s.returned; dropped =
     s.dropped; drained = s.drained; s_pend = s.s_pend; s_woken = s.s_woken;
-    r_pend = s.r_pend; r_woken = s.r_woken; rdisc = s.rdisc; s_ever =
-    s.s_ever; r_ever = s.r_ever; ev = s.ev }
+    r_pend = s.r_pend; r_woken = s.r_woken; st_pend = s.st_pend; st_woken =
+    s.st_woken; rdisc = s.rdisc; s_ever = s.s_ever; r_ever = s.r_ever; ev =
+    s.ev }
 
 (** val set_scount : z -> st -> st **)
 
@@ -434,8 +436,9 @@ let set_scount v s =
     s.rreg; sf = s.sf; rf = s.rf; next = s.next; accepted = s.accepted;
     received = s.received; returned = s.returned; dropped = s.dropped;
     drained = s.drained; s_pend = s.s_pend; s_woken = s.s_woken; r_pend =
-    s.r_pend; r_woken = s.r_woken; rdisc = s.rdisc; s_ever = s.s_ever;
-    r_ever = s.r_ever; ev = s.ev }
+    s.r_pend; r_woken = s.r_woken; st_pend = s.st_pend; st_woken =
+    s.st_woken; rdisc = s.rdisc; s_ever = s.s_ever; r_ever = s.r_ever; ev =
+    s.ev }
 
 (** val set_rcount : z -> st -> st **)
 
@@ -445,8 +448,9 @@ let set_rcount v s =
     s.rreg; sf = s.sf; rf = s.rf; next = s.next; accepted = s.accepted;
     received = s.received; returned = s.returned; dropped = s.dropped;
     drained = s.drained; s_pend = s.s_pend; s_woken = s.s_woken; r_pend =
-    s.r_pend; r_woken = s.r_woken; rdisc = s.rdisc; s_ever = s.s_ever;
-    r_ever = s.r_ever; ev = s.ev }
+    s.r_pend; r_woken = s.r_woken; st_pend = s.st_pend; st_woken =
+    s.st_woken; rdisc = s.rdisc; s_ever = s.s_ever; r_ever = s.r_ever; ev =
+    s.ev }
 
 (** val set_pdrop : bool -> st -> st **)
 
@@ -456,8 +460,9 @@ let set_pdrop v s =
     s.rreg; sf = s.sf; rf = s.rf; next = s.next; accepted = s.accepted;
     received = s.received; returned = s.returned; dropped = s.dropped;
     drained = s.drained; s_pend = s.s_pend; s_woken = s.s_woken; r_pend =
-    s.r_pend; r_woken = s.r_woken; rdisc = s.rdisc; s_ever = s.s_ever;
-    r_ever = s.r_ever; ev = s.ev }
+    s.r_pend; r_woken = s.r_woken; st_pend = s.st_pend; st_woken =
+    s.st_woken; rdisc = s.rdisc; s_ever = s.s_ever; r_ever = s.r_ever; ev =
+    s.ev }
 
 (** val set_cdrop : bool -> st -> st **)
 
@@ -467,8 +472,9 @@ let set_cdrop v s =
     s.rreg; sf = s.sf; rf = s.rf; next = s.next; accepted = s.accepted;
     received = s.received; returned = s.returned; dropped = s.dropped;
     drained = s.drained; s_pend = s.s_pend; s_woken = s.s_woken; r_pend =
-    s.r_pend; r_woken = s.r_woken; rdisc = s.rdisc; s_ever = s.s_ever;
-    r_ever = s.r_ever; ev = s.ev }
+    s.r_pend; r_woken = s.r_woken; st_pend = s.st_pend; st_woken =
+    s.st_woken; rdisc = s.rdisc; s_ever = s.s_ever; r_ever = s.r_ever; ev =
+    s.ev }
 
 (** val set_pw : nat option -> st -> st **)
 
@@ -478,8 +484,9 @@ let set_pw v s =
     s.rreg; sf = s.sf; rf = s.rf; next = s.next; accepted = s.accepted;
     received = s.received; returned = s.returned; dropped = s.dropped;
     drained = s.drained; s_pend = s.s_pend; s_woken = s.s_woken; r_pend =
-    s.r_pend; r_woken = s.r_woken; rdisc = s.rdisc; s_ever = s.s_ever;
-    r_ever = s.r_ever; ev = s.ev }
+    s.r_pend; r_woken = s.r_woken; st_pend = s.st_pend; st_woken =
+    s.st_woken; rdisc = s.rdisc; s_ever = s.s_ever; r_ever = s.r_ever; ev =
+    s.ev }
 
 (** val set_cw : nat option -> st -> st **)
 
@@ -489,8 +496,9 @@ let set_cw v s =
     s.rreg; sf = s.sf; rf = s.rf; next = s.next; accepted = s.accepted;
     received = s.received; returned = s.returned; dropped = s.dropped;
     drained = s.drained; s_pend = s.s_pend; s_woken = s.s_woken; r_pend =
-    s.r_pend; r_woken = s.r_woken; rdisc = s.rdisc; s_ever = s.s_ever;
-    r_ever = s.r_ever; ev = s.ev }
+    s.r_pend; r_woken = s.r_woken; st_pend = s.st_pend; st_woken =
+    s.st_woken; rdisc = s.rdisc; s_ever = s.s_ever; r_ever = s.r_ever; ev =
+    s.ev }
 
 (** val set_sh : hst -> st -> st **)
 
@@ -500,8 +508,9 @@ let set_sh v s =
     s.rreg; sf = s.sf; rf = s.rf; next = s.next; accepted = s.accepted;
     received = s.received; returned = s.returned; dropped = s.dropped;
     drained = s.drained; s_pend = s.s_pend; s_woken = s.s_woken; r_pend =
-    s.r_pend; r_woken = s.r_woken; rdisc = s.rdisc; s_ever = s.s_ever;
-    r_ever = s.r_ever; ev = s.ev }
+    s.r_pend; r_woken = s.r_woken; st_pend = s.st_pend; st_woken =
+    s.st_woken; rdisc = s.rdisc; s_ever = s.s_ever; r_ever = s.r_ever; ev =
+    s.ev }
 
 (** val set_rh : hst -> st -> st **)
 
@@ -511,8 +520,9 @@ let set_rh v s =
     s.rreg; sf = s.sf; rf = s.rf; next = s.next; accepted = s.accepted;
     received = s.received; returned = s.returned; dropped = s.dropped;
     drained = s.drained; s_pend = s.s_pend; s_woken = s.s_woken; r_pend =
-    s.r_pend; r_woken = s.r_woken; rdisc = s.rdisc; s_ever = s.s_ever;
-    r_ever = s.r_ever; ev = s.ev }
+    s.r_pend; r_woken = s.r_woken; st_pend = s.st_pend; st_woken =
+    s.st_woken; rdisc = s.rdisc; s_ever = s.s_ever; r_ever = s.r_ever; ev =
+    s.ev }
 
 (** val set_rreg : bool -> st -> st **)
 
@@ -522,8 +532,9 @@ let set_rreg v s =
     rreg = v; sf = s.sf; rf = s.rf; next = s.next; accepted = s.accepted;
     received = s.received; returned = s.returned; dropped = s.dropped;
     drained = s.drained; s_pend = s.s_pend; s_woken = s.s_woken; r_pend =
-    s.r_pend; r_woken = s.r_woken; rdisc = s.rdisc; s_ever = s.s_ever;
-    r_ever = s.r_ever; ev = s.ev }
+    s.r_pend; r_woken = s.r_woken; st_pend = s.st_pend; st_woken =
+    s.st_woken; rdisc = s.rdisc; s_ever = s.s_ever; r_ever = s.r_ever; ev =
+    s.ev }
 
 (** val set_sf : (sfut * bool) option -> st -> st **)
 
@@ -533,8 +544,9 @@ let set_sf v s =
     rreg = s.rreg; sf = v; rf = s.rf; next = s.next; accepted = s.accepted;
     received = s.received; returned = s.returned; dropped = s.dropped;
     drained = s.drained; s_pend = s.s_pend; s_woken = s.s_woken; r_pend =
-    s.r_pend; r_woken = s.r_woken; rdisc = s.rdisc; s_ever = s.s_ever;
-    r_ever = s.r_ever; ev = s.ev }
+    s.r_pend; r_woken = s.r_woken; st_pend = s.st_pend; st_woken =
+    s.st_woken; rdisc = s.rdisc; s_ever = s.s_ever; r_ever = s.r_ever; ev =
+    s.ev }
 
 (** val set_rf : (rfut * bool) option -> st -> st **)
 
@@ -544,8 +556,9 @@ let set_rf v s =
     rreg = s.rreg; sf = s.sf; rf = v; next = s.next; accepted = s.accepted;
     received = s.received; returned = s.returned; dropped = s.dropped;
     drained = s.drained; s_pend = s.s_pend; s_woken = s.s_woken; r_pend =
-    s.r_pend; r_woken = s.r_woken; rdisc = s.rdisc; s_ever = s.s_ever;
-    r_ever = s.r_ever; ev = s.ev }
+    s.r_pend; r_woken = s.r_woken; st_pend = s.st_pend; st_woken =
+    s.st_woken; rdisc = s.rdisc; s_ever = s.s_ever; r_ever = s.r_ever; ev =
+    s.ev }
 
 (** val set_next : nat -> st -> st **)
 
@@ -555,8 +568,9 @@ let set_next v s =
     rreg = s.rreg; sf = s.sf; rf = s.rf; next = v; accepted = s.accepted;
     received = s.received; returned = s.returned; dropped = s.dropped;
     drained = s.drained; s_pend = s.s_pend; s_woken = s.s_woken; r_pend =
-    s.r_pend; r_woken = s.r_woken; rdisc = s.rdisc; s_ever = s.s_ever;
-    r_ever = s.r_ever; ev = s.ev }
+    s.r_pend; r_woken = s.r_woken; st_pend = s.st_pend; st_woken =
+    s.st_woken; rdisc = s.rdisc; s_ever = s.s_ever; r_ever = s.r_ever; ev =
+    s.ev }
 
 (** val set_accepted : nat list -> st -> st **)
 
@@ -566,8 +580,9 @@ let set_accepted v s =
     rreg = s.rreg; sf = s.sf; rf = s.rf; next = s.next; accepted = v;
     received = s.received; returned = s.returned; dropped = s.dropped;
     drained = s.drained; s_pend = s.s_pend; s_woken = s.s_woken; r_pend =
-    s.r_pend; r_woken = s.r_woken; rdisc = s.rdisc; s_ever = s.s_ever;
-    r_ever = s.r_ever; ev = s.ev }
+    s.r_pend; r_woken = s.r_woken; st_pend = s.st_pend; st_woken =
+    s.st_woken; rdisc = s.rdisc; s_ever = s.s_ever; r_ever = s.r_ever; ev =
+    s.ev }
 
 (** val set_received : nat list -> st -> st **)
 
@@ -577,8 +592,9 @@ let set_received v s =
     rreg = s.rreg; sf = s.sf; rf = s.rf; next = s.next; accepted =
     s.accepted; received = v; returned = s.returned; dropped = s.dropped;
     drained = s.drained; s_pend = s.s_pend; s_woken = s.s_woken; r_pend =
-    s.r_pend; r_woken = s.r_woken; rdisc = s.rdisc; s_ever = s.s_ever;
-    r_ever = s.r_ever; ev = s.ev }
+    s.r_pend; r_woken = s.r_woken; st_pend = s.st_pend; st_woken =
+    s.st_woken; rdisc = s.rdisc; s_ever = s.s_ever; r_ever = s.r_ever; ev =
+    s.ev }
 
 (** val set_returned : nat list -> st -> st **)
 
@@ -588,8 +604,9 @@ let set_returned v s =
     rreg = s.rreg; sf = s.sf; rf = s.rf; next = s.next; accepted =
     s.accepted; received = s.received; returned = v; dropped = s.dropped;
     drained = s.drained; s_pend = s.s_pend; s_woken = s.s_woken; r_pend =
-    s.r_pend; r_woken = s.r_woken; rdisc = s.rdisc; s_ever = s.s_ever;
-    r_ever = s.r_ever; ev = s.ev }
+    s.r_pend; r_woken = s.r_woken; st_pend = s.st_pend; st_woken =
+    s.st_woken; rdisc = s.rdisc; s_ever = s.s_ever; r_ever = s.r_ever; ev =
+    s.ev }
 
 (** val set_dropped : nat list -> st -> st **)
 
@@ -599,8 +616,9 @@ let set_dropped v s =
     rreg = s.rreg; sf = s.sf; rf = s.rf; next = s.next; accepted =
     s.accepted; received = s.received; returned = s.returned; dropped = v;
     drained = s.drained; s_pend = s.s_pend; s_woken = s.s_woken; r_pend =
-    s.r_pend; r_woken = s.r_woken; rdisc = s.rdisc; s_ever = s.s_ever;
-    r_ever = s.r_ever; ev = s.ev }
+    s.r_pend; r_woken = s.r_woken; st_pend = s.st_pend; st_woken =
+    s.st_woken; rdisc = s.rdisc; s_ever = s.s_ever; r_ever = s.r_ever; ev =
+    s.ev }
 
 (** val set_drained : nat list -> st -> st **)
 
@@ -610,8 +628,9 @@ let set_drained v s =
     rreg = s.rreg; sf = s.sf; rf = s.rf; next = s.next; accepted =
     s.accepted; received = s.received; returned = s.returned; dropped =
     s.dropped; drained = v; s_pend = s.s_pend; s_woken = s.s_woken; r_pend =
-    s.r_pend; r_woken = s.r_woken; rdisc = s.rdisc; s_ever = s.s_ever;
-    r_ever = s.r_ever; ev = s.ev }
+    s.r_pend; r_woken = s.r_woken; st_pend = s.st_pend; st_woken =
+    s.st_woken; rdisc = s.rdisc; s_ever = s.s_ever; r_ever = s.r_ever; ev =
+    s.ev }
 
 (** val set_s_pend : nat option -> st -> st **)
 
@@ -621,8 +640,9 @@ let set_s_pend v s =
     rreg = s.rreg; sf = s.sf; rf = s.rf; next = s.next; accepted =
     s.accepted; received = s.received; returned = s.returned; dropped =
     s.dropped; drained = s.drained; s_pend = v; s_woken = s.s_woken; r_pend =
-    s.r_pend; r_woken = s.r_woken; rdisc = s.rdisc; s_ever = s.s_ever;
-    r_ever = s.r_ever; ev = s.ev }
+    s.r_pend; r_woken = s.r_woken; st_pend = s.st_pend; st_woken =
+    s.st_woken; rdisc = s.rdisc; s_ever = s.s_ever; r_ever = s.r_ever; ev =
+    s.ev }
 
 (** val set_s_woken : bool -> st -> st **)
 
@@ -632,8 +652,9 @@ let set_s_woken v s =
     rreg = s.rreg; sf = s.sf; rf = s.rf; next = s.next; accepted =
     s.accepted; received = s.received; returned = s.returned; dropped =
     s.dropped; drained = s.drained; s_pend = s.s_pend; s_woken = v; r_pend =
-    s.r_pend; r_woken = s.r_woken; rdisc = s.rdisc; s_ever = s.s_ever;
-    r_ever = s.r_ever; ev = s.ev }
+    s.r_pend; r_woken = s.r_woken; st_pend = s.st_pend; st_woken =
+    s.st_woken; rdisc = s.rdisc; s_ever = s.s_ever; r_ever = s.r_ever; ev =
+    s.ev }
 
 (** val set_r_pend : (owner * nat) option -> st -> st **)
 
@@ -643,8 +664,9 @@ let set_r_pend v s =
     rreg = s.rreg; sf = s.sf; rf = s.rf; next = s.next; accepted =
     s.accepted; received = s.received; returned = s.returned; dropped =
     s.dropped; drained = s.drained; s_pend = s.s_pend; s_woken = s.s_woken;
-    r_pend = v; r_woken = s.r_woken; rdisc = s.rdisc; s_ever = s.s_ever;
-    r_ever = s.r_ever; ev = s.ev }
+    r_pend = v; r_woken = s.r_woken; st_pend = s.st_pend; st_woken =
+    s.st_woken; rdisc = s.rdisc; s_ever = s.s_ever; r_ever = s.r_ever; ev =
+    s.ev }
 
 (** val set_r_woken : bool -> st -> st **)
 
@@ -654,8 +676,32 @@ let set_r_woken v s =
     rreg = s.rreg; sf = s.sf; rf = s.rf; next = s.next; accepted =
     s.accepted; received = s.received; returned = s.returned; dropped =
     s.dropped; drained = s.drained; s_pend = s.s_pend; s_woken = s.s_woken;
-    r_pend = s.r_pend; r_woken = v; rdisc = s.rdisc; s_ever = s.s_ever;
-    r_ever = s.r_ever; ev = s.ev }
+    r_pend = s.r_pend; r_woken = v; st_pend = s.st_pend; st_woken =
+    s.st_woken; rdisc = s.rdisc; s_ever = s.s_ever; r_ever = s.r_ever; ev =
+    s.ev }
+
+(** val set_st_pend : nat option -> st -> st **)
+
+let set_st_pend v s =
+  { cap = s.cap; q = s.q; scount = s.scount; rcount = s.rcount; pdrop =
+    s.pdrop; cdrop = s.cdrop; pw = s.pw; cw = s.cw; sh = s.sh; rh = s.rh;
+    rreg = s.rreg; sf = s.sf; rf = s.rf; next = s.next; accepted =
+    s.accepted; received = s.received; returned = s.returned; dropped =
+    s.dropped; drained = s.drained; s_pend = s.s_pend; s_woken = s.s_woken;
+    r_pend = s.r_pend; r_woken = s.r_woken; st_pend = v; st_woken =
+    s.st_woken; rdisc = s.rdisc; s_ever = s.s_ever; r_ever = s.r_ever; ev =
+    s.ev }
+
+(** val set_st_woken : bool -> st -> st **)
+
+let set_st_woken v s =
+  { cap = s.cap; q = s.q; scount = s.scount; rcount = s.rcount; pdrop =
+    s.pdrop; cdrop = s.cdrop; pw = s.pw; cw = s.cw; sh = s.sh; rh = s.rh;
+    rreg = s.rreg; sf = s.sf; rf = s.rf; next = s.next; accepted =
+    s.accepted; received = s.received; returned = s.returned; dropped =
+    s.dropped; drained = s.drained; s_pend = s.s_pend; s_woken = s.s_woken;
+    r_pend = s.r_pend; r_woken = s.r_woken; st_pend = s.st_pend; st_woken =
+    v; rdisc = s.rdisc; s_ever = s.s_ever; r_ever = s.r_ever; ev = s.ev }
 
 (** val set_rdisc : bool -> st -> st **)
 
@@ -665,8 +711,8 @@ let set_rdisc v s =
     rreg = s.rreg; sf = s.sf; rf = s.rf; next = s.next; accepted =
     s.accepted; received = s.received; returned = s.returned; dropped =
     s.dropped; drained = s.drained; s_pend = s.s_pend; s_woken = s.s_woken;
-    r_pend = s.r_pend; r_woken = s.r_woken; rdisc = v; s_ever = s.s_ever;
-    r_ever = s.r_ever; ev = s.ev }
+    r_pend = s.r_pend; r_woken = s.r_woken; st_pend = s.st_pend; st_woken =
+    s.st_woken; rdisc = v; s_ever = s.s_ever; r_ever = s.r_ever; ev = s.ev }
 
 (** val set_s_ever : bool -> st -> st **)
 
@@ -676,8 +722,8 @@ let set_s_ever v s =
     rreg = s.rreg; sf = s.sf; rf = s.rf; next = s.next; accepted =
     s.accepted; received = s.received; returned = s.returned; dropped =
     s.dropped; drained = s.drained; s_pend = s.s_pend; s_woken = s.s_woken;
-    r_pend = s.r_pend; r_woken = s.r_woken; rdisc = s.rdisc; s_ever = v;
-    r_ever = s.r_ever; ev = s.ev }
+    r_pend = s.r_pend; r_woken = s.r_woken; st_pend = s.st_pend; st_woken =
+    s.st_woken; rdisc = s.rdisc; s_ever = v; r_ever = s.r_ever; ev = s.ev }
 
 (** val set_r_ever : bool -> st -> st **)
 
@@ -687,8 +733,8 @@ let set_r_ever v s =
     rreg = s.rreg; sf = s.sf; rf = s.rf; next = s.next; accepted =
     s.accepted; received = s.received; returned = s.returned; dropped =
     s.dropped; drained = s.drained; s_pend = s.s_pend; s_woken = s.s_woken;
-    r_pend = s.r_pend; r_woken = s.r_woken; rdisc = s.rdisc; s_ever =
-    s.s_ever; r_ever = v; ev = s.ev }
+    r_pend = s.r_pend; r_woken = s.r_woken; st_pend = s.st_pend; st_woken =
+    s.st_woken; rdisc = s.rdisc; s_ever = s.s_ever; r_ever = v; ev = s.ev }
 
 (** val set_ev : event list -> st -> st **)
 
@@ -698,8 +744,9 @@ let set_ev v s =
     rreg = s.rreg; sf = s.sf; rf = s.rf; next = s.next; accepted =
     s.accepted; received = s.received; returned = s.returned; dropped =
     s.dropped; drained = s.drained; s_pend = s.s_pend; s_woken = s.s_woken;
-    r_pend = s.r_pend; r_woken = s.r_woken; rdisc = s.rdisc; s_ever =
-    s.s_ever; r_ever = s.r_ever; ev = v }
+    r_pend = s.r_pend; r_woken = s.r_woken; st_pend = s.st_pend; st_woken =
+    s.st_woken; rdisc = s.rdisc; s_ever = s.s_ever; r_ever = s.r_ever; ev =
+    v }
 
 (** val init : nat -> kind -> st **)
 
@@ -708,8 +755,8 @@ let init c k =
     cdrop = false; pw = None; cw = None; sh = (HLive (k, false)); rh = (HLive
     (k, false)); rreg = false; sf = None; rf = None; next = O; accepted = [];
     received = []; returned = []; dropped = []; drained = []; s_pend = None;
-    s_woken = false; r_pend = None; r_woken = false; rdisc = false; s_ever =
-    false; r_ever = false; ev = [] }
+    s_woken = false; r_pend = None; r_woken = false; st_pend = None;
+    st_woken = false; rdisc = false; s_ever = false; r_ever = false; ev = [] }
 
 (** val emit : event -> st -> st **)
 
@@ -720,7 +767,13 @@ let emit e s =
 
 let wake_r s =
   match s.cw with
-  | Some w -> emit (EWake w) (set_r_woken true (set_cw None s))
+  | Some w ->
+    let s1 =
+      match s.st_pend with
+      | Some w' -> if Nat.eqb w' w then set_st_woken true s else s
+      | None -> s
+    in
+    emit (EWake w) (set_r_woken true (set_cw None s1))
   | None -> s
 
 (** val wake_s : st -> st **)
@@ -793,12 +846,14 @@ let shared_drop_if s =
 (** val clear_stream_pend : st -> st **)
 
 let clear_stream_pend s =
-  match s.r_pend with
-  | Some p ->
-    let (o, _) = p in (match o with
-                       | OFut -> s
-                       | OStream -> set_r_pend None s)
-  | None -> s
+  set_st_pend None
+    (match s.r_pend with
+     | Some p ->
+       let (o, _) = p in
+       (match o with
+        | OFut -> s
+        | OStream -> set_r_pend None s)
+     | None -> s)
 
 (** val clear_fut_pend : st -> st **)
 
@@ -1163,13 +1218,15 @@ let do_dropfut_r s =
 let do_stream_next w s =
   gate_r s (Some KAsync) (fun _ c ->
     if c
-    then ((note_disc s), RNone)
+    then ((clear_stream_pend (note_disc s)), RNone)
     else (match s.q with
           | [] ->
             if senders_alive s
-            then ((set_r_woken false
-                    (set_r_pend (Some (OStream, w))
-                      (set_rreg true (set_cw (Some w) s)))), RPending)
+            then ((set_st_woken false
+                    (set_st_pend (Some w)
+                      (set_r_woken false
+                        (set_r_pend (Some (OStream, w))
+                          (set_rreg true (set_cw (Some w) s)))))), RPending)
             else ((note_disc (clear_stream_pend (stream_unreg s))), RNone)
           | x :: _ ->
             ((clear_stream_pend (pop (S O) (stream_unreg s))), (RVal x))))
